@@ -52,6 +52,7 @@ type node struct {
 func (n *node) Invalidated() bool {
 	n.mu.Lock()
 	result := n.invalidated
+	vh("node.invalidated", n, result)
 	n.mu.Unlock()
 	return result
 }
